@@ -312,3 +312,16 @@ package reg
 //@   in ~/scheme/reg
 //@   infunc \)\.ManifestGet$
 //@   requires of-the-manifest-just-built: recv == caller.m__2
+
+// C06 "listing tags returns every tag that was pushed": the registry pages its tag list; the client
+// follows the rel="next" links and leaves the page loop only when the caller's limit is reached or the
+// headers of the last answer carried no next link - whatever order the pages came in (a registry
+// may order by collation or by time; nothing may be inferred from the tags of a page).
+//@ ghost $tagsNoNext bool
+//@ func (*Reg).TagList(ctx, r, opts) (tl, err)
+//@   prop C06
+//@   entry-assume !$tagsNoNext
+//@   on-call Get: $tagsNoNext = (result1 != nil)
+//@   loop 1 ()
+//@     head-effect $tagsNoNext = false
+//@     exit-assert every-page-followed-or-limit-reached: $tagsNoNext || (config.Limit > 0 && len(tl.Tags) >= config.Limit)
